@@ -55,6 +55,15 @@ def ann_container_elem(p: Program, ann: ast.AST | None) -> list[str]:
     return []
 
 
+# method names that also exist on builtin containers/strings/files: never resolved by the unique-definer fallback
+_BUILTIN_METHOD_NAMES = {
+    "append", "extend", "insert", "pop", "remove", "clear", "copy", "add", "discard", "update", "get", "items", "keys",
+    "values", "close", "read", "write", "index", "count", "sort", "reverse", "join", "split", "strip", "encode", "decode",
+    "format", "search", "match", "run", "start", "cancel", "set", "wait", "put", "delete", "rename", "list", "create",
+    "fetch", "store", "expunge", "lock", "unlock", "commit", "execute", "query", "push", "command", "message", "new",
+}
+
+
 class Typer:
     def __init__(self, p: Program):
         self.p = p
@@ -267,7 +276,7 @@ class Typer:
                     ci = self.p.classes[sc]
                     if f.attr in ci.methods and ci.methods[f.attr] not in out:
                         out.append(ci.methods[f.attr])
-            if not out and not rts and unique_fallback:
+            if not out and not rts and unique_fallback and f.attr not in _BUILTIN_METHOD_NAMES:
                 cands = [ci.methods[f.attr] for ci in self.p.classes.values() if f.attr in ci.methods]
                 if len(cands) == 1:
                     out = cands
